@@ -2152,6 +2152,18 @@ KERNELS = [
     ("KRatio", "src/as_integer_ratio.rs", "as_integer_ratio", "Decimal", {"occ": 1, "as": "decimal_as_integer_ratio"}),
     ("KRatio", "src/as_integer_ratio.rs", "numerator", "Decimal", {"occ": 1, "as": "decimal_numerator"}),
     ("KRatio", "src/as_integer_ratio.rs", "denominator", "Decimal", {"occ": 1, "as": "decimal_denominator"}),
+    ("KDecRem", "src/binops/rem.rs", "rem", "Decimal", {"as": "decimal_rem_int", "macro": ("impl_rem_decimal_and_int", 1, 0, {"$t": "i64"}), "occ": 0, "ret": "Decimal"}),
+    ("KDecRem", "src/binops/rem.rs", "rem", "i64", {"as": "int_rem_decimal", "macro": ("impl_rem_decimal_and_int", 1, 0, {"$t": "i64"}), "occ": 1, "ret": "Decimal"}),
+    ("KDecRem", "src/binops/checked_rem.rs", "checked_rem", "Decimal", {"as": "decimal_checked_rem_int", "macro": ("impl_checked_rem_decimal_and_int", 1, 0, {"$t": "i64"}), "occ": 0, "ret": ("Option", "Decimal")}),
+    ("KDecRem", "src/binops/checked_rem.rs", "checked_rem", "i64", {"as": "int_checked_rem_decimal", "macro": ("impl_checked_rem_decimal_and_int", 1, 0, {"$t": "i64"}), "occ": 1, "ret": ("Option", "Decimal")}),
+    ("KAddSub", "src/binops/checked_add_sub.rs", "$method", "Decimal",
+     {"as": "decimal_checked_add_int", "macro": ("impl_checked_add_sub_decimal_and_int", 1, 0, {"$t": "i64"}), "occ": 0, "ret": ("Option", "Decimal")}),
+    ("KAddSub", "src/binops/checked_add_sub.rs", "$method", "i64",
+     {"as": "int_checked_add_decimal", "macro": ("impl_checked_add_sub_decimal_and_int", 1, 0, {"$t": "i64"}), "occ": 1, "ret": ("Option", "Decimal")}),
+    ("KAddSub", "src/binops/checked_add_sub.rs", "$method", "Decimal",
+     {"as": "decimal_checked_sub_int", "macro": ("impl_checked_add_sub_decimal_and_int", 1, 1, {"$t": "i64"}), "occ": 0, "ret": ("Option", "Decimal")}),
+    ("KAddSub", "src/binops/checked_add_sub.rs", "$method", "i64",
+     {"as": "int_checked_sub_decimal", "macro": ("impl_checked_add_sub_decimal_and_int", 1, 1, {"$t": "i64"}), "occ": 1, "ret": ("Option", "Decimal")}),
     ("KFloat", "src/from_float.rs", "f64_decode", None),
     ("KFloat", "src/from_float.rs", "f32_decode", None),
     ("KFloat", "src/from_float.rs", "try_from", "Decimal", {"occ": 0, "as": "try_from_f32"}),
